@@ -12,6 +12,7 @@ import numpy as np
 from harness import graphgen as gg
 from harness.common import WORK, Failure, HarnessError, cbool, dtype_name, exn_name
 from harness.storelib import Interner, abstract_meta_obj, c_meta, c_otree, dump_tree, tree_printable
+from harness import keystore as kst
 
 PROP = "C01"
 PARALLEL = True
@@ -25,7 +26,9 @@ EXHAUSTIVE_BLOCKS = ["N in {0,1,2} x one node property over every dtype x rank {
 ASSUMPTIONS = ["zarr codecs/chunking and numpy byte representation are trusted: the model's store holds decoded arrays (harness/storelib.dump_tree)",
                "validity of a metadata document is decided by geff_spec.GeffMetadata.model_validate (modelled in C07)",
                "string payloads and non-dyadic / non-finite floats are opaque tokens in the model (never compared or ordered there)",
-               "property names containing '/' or control characters are outside the model (oracle-only)"]
+               "property names containing '/' or control characters are outside the model (oracle-only)",
+               "key level (every third random case): the raw keys after the write are abstracted inside Coq (KeyStore.v) and must equal the dumped tree; "
+               "chunk bytes are decoded by the harness (numcodecs + numpy.frombuffer); chunk encoding itself stays trusted"]
 
 STORE_KINDS = ["mem", "local", "path", "str"]
 
@@ -81,6 +84,18 @@ def generate(rng: random.Random, tier: str):
         yield {"kind": "write", "wf": True, "store": "mem", "fmt": fmt, "pre": "fresh", "validate": True, "overwrite": False,
                "nids": {"dtype": "uint8", "shape": [0], "data": []}, "eids": {"dtype": "uint8", "shape": [0, 2], "data": []},
                "nprops": {"poly": {"values": {"vlen": []}, "missing": None}}, "eprops": {}, "md": {"directed": True}}
+    # the same for a graph with nodes but no edges and a var-length EDGE property
+    yield {"kind": "write", "wf": True, "store": "mem", "fmt": 2, "pre": "fresh", "validate": True, "overwrite": False,
+           "nids": {"dtype": "uint8", "shape": [2], "data": [4, 5]}, "eids": {"dtype": "uint8", "shape": [0, 2], "data": []},
+           "nprops": {}, "eprops": {"poly": {"values": {"vlen": []}, "missing": None}}, "md": {"directed": True}}
+    # a var-length property whose elements are float16 (float16 is a supported dtype: "upcast to float32")
+    for fmt in (2, 3):
+        for miss in (None, {"dtype": "bool", "shape": [2], "data": [False, True]}):
+            yield {"kind": "write", "wf": True, "store": "mem", "fmt": fmt, "pre": "fresh", "validate": True, "overwrite": False,
+                   "nids": {"dtype": "uint16", "shape": [2], "data": [7, 300]}, "eids": {"dtype": "uint16", "shape": [1, 2], "data": [7, 300]},
+                   "nprops": {"h": {"values": {"vlen": [{"dtype": "float16", "shape": [2], "data": [0.5, -1.5]},
+                                                         {"dtype": "float16", "shape": [1], "data": [2.0]}]}, "missing": miss}},
+                   "eprops": {}, "md": {"directed": False}}
     # one var-length property name shared by nodes and edges, different dtypes and shapes
     for fmt in (2, 3):
         for store in ("mem", "path"):
@@ -96,7 +111,7 @@ def generate(rng: random.Random, tier: str):
         g = gg.rand_graph(rng)
         yield {"kind": "write", "wf": True, "store": rng.choice(STORE_KINDS) if i % 3 == 0 else "mem", "fmt": rng.choice([2, 3]),
                "pre": "foreign" if rng.random() < 0.2 else "fresh", "validate": rng.random() < 0.9,
-               "overwrite": rng.random() < 0.1, **g}
+               "overwrite": rng.random() < 0.1, "ktie": i % 3 == 0, **g}
     # names zarr cannot use as a single member name: the write must be refused cleanly or round-trip exactly (oracle only)
     for nm in ("a/b", ".", "..", "/x", "x/", "a//b", ".zarray", "zarr.json", ".zattrs"):
         for fmt in (2, 3):
@@ -241,6 +256,10 @@ def run_impl(c):
         except Exception as e:
             obs["res"] = ["err", exn_name(e), str(e)[:120]]
         post = dump_tree(store, it)
+        # the RAW KEYS after the write (harness/keystore.py), for the key-level tie of the surviving tree (every third case: cheap)
+        raw = kst.try_raw_dump(store, it, c["fmt"]) if c.get("ktie") and post is not None else None
+        if c.get("ktie") and post is not None and raw is None:
+            obs["keys_error"] = kst.LAST_ERROR[0]
         back = None
         try:
             back = read_to_memory(store)
@@ -254,6 +273,11 @@ def run_impl(c):
                 r = "(Ok tt)" if obs["res"][0] == "ok" else f"(Err {obs['res'][1]})"
                 b = f"(Ok {gg.c_mgraph(back, it)})" if back is not None else f"(Err {obs['back'][1]})"
                 obs["coq"] = f"({coq_in}, OWrite {r} {c_otree(post)} {b})"
+                if raw is not None and coq_in.startswith("IWrite "):
+                    kterm, _ = kst.c_kstore(raw)
+                    obs["coq"] = (f"(IWriteK {coq_in[len('IWrite '):]} {kst.c_fmt(c['fmt'])} {kterm} {kst.geff_version_term(raw)}, "
+                                  f"OWrite {r} {c_otree(post)} {b})")
+                    obs["keys_tied"] = len(raw["items"])
             except HarnessError:
                 pass
     finally:
@@ -263,6 +287,9 @@ def run_impl(c):
 
 
 def coq_case(c, o):
+    if o.get("keys_tied"):
+        KEY_STATS["stores_tied_at_key_level"] += 1
+        KEY_STATS["keys"] += o["keys_tied"]
     return o.get("coq")
 
 
@@ -279,14 +306,19 @@ def oracle(c, o):
             return Failure(c, strip(o), f"property name {c['oddname']!r}: write raised {o['res'][1]} and the store afterwards reads {o['back'][0]}",
                            {"why": "oddname", "name": c["oddname"]})
         return None
+    has_vlen_f16 = any("vlen" in p["values"] and any(e["dtype"] == "float16" for e in p["values"]["vlen"])
+                       for ps in (c["nprops"], c["eprops"]) if ps for p in ps.values())
     if o["res"][0] != "ok":
         return Failure(c, strip(o), f"write_arrays raised {o['res'][1]} on a well-formed graph: {o['res'][2]}",
-                       {"why": "write-raises", "exc": o["res"][1], "empty_vlen": has_empty_vlen})
+                       {"why": "write-raises", "exc": o["res"][1], "empty_vlen": has_empty_vlen, "vlen_f16": has_vlen_f16})
     if o["back"][0] != "ok":
         return Failure(c, strip(o), f"read_to_memory raised {o['back'][1]} after a successful write: {o['back'][2]}",
                        {"why": "read-raises", "exc": o["back"][1]})
     if o.get("diff"):
         return Failure(c, strip(o), f"read-back differs: {o['diff']}", {"why": "differs", "what": o["diff"].split(":")[0][:40]})
+    if o.get("keys_error") and c["pre"] == "fresh":
+        return Failure(c, strip(o), f"key level: after a successful write the store's keys cannot be read as a zarr format {c['fmt']} store: "
+                       f"{o['keys_error']}", {"why": "key-layout"})
     return None
 
 
@@ -312,6 +344,9 @@ def search(rng, budget):
             yield c
 
 
+KEY_STATS = {"stores_tied_at_key_level": 0, "keys": 0}
+
+
 def extra_coverage():
     shutil.rmtree(scratch_dir(), ignore_errors=True)
-    return {}
+    return {"key_level": dict(KEY_STATS)}
